@@ -9,41 +9,62 @@ Definition enc_item (v : bytes) : bytes := len_byte v :: v.
 (* the binary form of a list of strings name1, value1, name2, value2, ... *)
 Definition enc_fields (items : list bytes) : bytes := concat (map enc_item items).
 
-(* AsKVString: a value is passed through strconv.Quote iff it holds ',' or '=' (names never) *)
-Definition fld_needs_quote (v : bytes) : bool := has COMMA v || has EQ v.
+(* AsKVString: which names and values are passed through strconv.Quote.
+   kvNeedsQuote(s, name, edge) of the code: an empty name; a string holding ',' '=' or a double quote (the splitter
+   treats them specially); a blank at an end (trimmed by the parser); a leading back quote (the parser would unquote
+   it); '{' at the beginning of the first name and '}' at the end of the last value of the text ([edge]).
+   The earlier AsKVString quoted a value iff it held ',' or '=', and never a name. *)
+Definition kv_needs_quote (name edge : bool) (s : bytes) : bool :=
+  match s with
+  | [] => name
+  | _ :: _ => has COMMA s || has EQ s || has QUOTE s || first_is SP s || last_is SP s || first_is BQ s ||
+              (edge && (if name then first_is LBR s else last_is RBR s))
+  end.
+Definition fld_needs_quote_v (fx name edge : bool) (s : bytes) : bool :=
+  if fx then kv_needs_quote name edge s else negb name && (has COMMA s || has EQ s).
+
+(* the variants on the tree: AsKVString quotes with kvNeedsQuote; NewFieldsFromKVString applies the 255-byte limit
+   to what it stores (after TrimSpaces/Unquote) instead of to the raw piece *)
+Definition code_fields_quote : bool := true.
+Definition code_fields_limit_stored : bool := true.
 
 Section WithOracles.
+  Variable fxq fxl : bool.
   Variable quote : bytes -> bytes.
   Variable unquote : bytes -> option bytes.
 
-  (* the loop of NewFieldsFromKVString over the pieces; [even] = the piece is a name *)
-  Fixpoint fld_items (l : list bytes) (even : bool) : outcome bytes :=
+  (* the loop of NewFieldsFromKVString over the pieces; [even] = the piece is a name.
+     [fxl] = false: `if len(v) > 255` on the raw piece at the top of the loop (the earlier code);
+     [fxl] = true: the same test on the string that is stored, just before byte(len(v)) is written *)
+  Fixpoint fld_items_v (l : list bytes) (even : bool) : outcome bytes :=
     match l with
     | [] => Ok []
     | p :: tl =>
-        if Nat.ltb 255 (length p) then Err
+        if negb fxl && Nat.ltb 255 (length p) then Err
         else let v := trim p in
              if is_nil v && even then Err
              else match unq unquote v with
-                  | Ok v' => match fld_items tl (negb even) with Ok r => Ok (enc_item v' ++ r) | o => o end
+                  | Ok v' => if fxl && Nat.ltb 255 (length v') then Err
+                             else match fld_items_v tl (negb even) with Ok r => Ok (enc_item v' ++ r) | o => o end
                   | _ => Err
                   end
     end.
 
-  Definition fields_of_kv (s : bytes) : outcome bytes :=
+  Definition fields_of_kv_v (s : bytes) : outcome bytes :=
     match remove_curly s with
     | Ok [] => Ok []
     | Ok fine => match split_string fine with
-                 | Ok l => if Nat.odd (length l) then Err else fld_items l true
+                 | Ok l => if Nat.odd (length l) then Err else fld_items_v l true
                  | _ => Err
                  end
     | _ => Err
     end.
 
-  Definition fld_val (v : bytes) : bytes := if fld_needs_quote v then quote v else v.
+  Definition fld_item_v (name edge : bool) (s : bytes) : bytes := if fld_needs_quote_v fxq name edge s then quote s else s.
 
-  (* the loop of AsKVString over the binary form; slicing past the end panics.  [first] = idx == 0 *)
-  Fixpoint as_kv_go (fuel : nat) (f : bytes) (even first : bool) : outcome bytes :=
+  (* the loop of AsKVString over the binary form; slicing past the end panics.  [first] = idx == 0; a value is the
+     last of the text iff idx+n+1 == len(f), i.e. nothing follows it *)
+  Fixpoint as_kv_go_v (fuel : nat) (f : bytes) (even first : bool) : outcome bytes :=
     match f with
     | [] => Ok []
     | c :: tl =>
@@ -53,14 +74,23 @@ Section WithOracles.
             let n := N.to_nat (Byte.to_N c) in
             if Nat.ltb (length tl) n then Panic
             else let item := firstn n tl in
-                 match as_kv_go fuel' (skipn n tl) (negb even) false with
-                 | Ok r => Ok ((if even then (if first then [] else [COMMA]) ++ item ++ [EQ] else fld_val item) ++ r)
+                 let rest := skipn n tl in
+                 match as_kv_go_v fuel' rest (negb even) false with
+                 | Ok r => Ok ((if even then (if first then [] else [COMMA]) ++ fld_item_v true first item ++ [EQ]
+                                else fld_item_v false (is_nil rest) item) ++ r)
                  | o => o
                  end
         end
     end.
-  Definition as_kv (f : bytes) : outcome bytes := as_kv_go (length f) f true true.
+  Definition as_kv_v (f : bytes) : outcome bytes := as_kv_go_v (length f) f true true.
 End WithOracles.
+
+(* the code *)
+Definition fld_items := fld_items_v code_fields_limit_stored.
+Definition fields_of_kv := fields_of_kv_v code_fields_limit_stored.
+Definition fld_item := fld_item_v code_fields_quote.
+Definition as_kv_go := as_kv_go_v code_fields_quote.
+Definition as_kv := as_kv_v code_fields_quote.
 
 (* decoding of the binary form into its strings (None: not well-formed) *)
 Fixpoint dec_fields_go (fuel : nat) (f : bytes) : option (list bytes) :=
@@ -84,25 +114,11 @@ Fixpoint pairs_up (l : list bytes) : option (list (bytes * bytes)) :=
   | k :: v :: tl => match pairs_up tl with Some r => Some ((k, v) :: r) | None => None end
   end.
 
-(* ---- the class of field lists on which print-then-parse is the identity ---- *)
+(* ---- the field lists on which print-then-parse is the identity: every well-formed one, i.e. the binary form of
+   an even number of strings (each of them at most 255 bytes long, as its length byte says) ---- *)
 Definition le255 (v : bytes) : bool := Nat.leb (length v) 255.
-(* names are printed raw and the parser unquotes names too *)
-Definition fname_ok (k : bytes) : bool := name_ok k && negb (starts_quoted k) && le255 k.
-Section Safe.
-  Variable quote : bytes -> bytes.
-  Definition fvalue_safe (v : bytes) : bool :=
-    le255 v && (if fld_needs_quote v then le255 (quote v) else raw_value_ok v).
-  Definition fpair_safe (kv : bytes * bytes) : bool := fname_ok (fst kv) && fvalue_safe (snd kv).
-  Definition fld_edges_ok (l : list (bytes * bytes)) : bool :=
-    match l with
-    | [] => true
-    | (k, _) :: _ => negb (first_is LBR k) &&
-                     (let v := snd (last l ([], [])) in fld_needs_quote v || negb (last_is RBR v))
-    end.
-  Definition fpairs_safe (l : list (bytes * bytes)) : bool := forallb fpair_safe l && fld_edges_ok l.
-  Definition fields_safe (f : bytes) : bool :=
-    match dec_fields f with
-    | Some items => match pairs_up items with Some l => fpairs_safe l | None => false end
-    | None => false
-    end.
-End Safe.
+Definition fields_wf (f : bytes) : bool :=
+  match dec_fields f with
+  | Some items => match pairs_up items with Some _ => true | None => false end
+  | None => false
+  end.
